@@ -30,8 +30,8 @@ structure NInv (s : Na.Sys) : Prop where
   file : s.file = s.logged.map some
   lOrd : s.logged.Pairwise SameOrd
   lBound : ∀ l ∈ s.logged, l.2 < s.count l.1 ∧ (l.2 = s.count l.1 - 1 → nPre (s.pcs l.1) = false)
-  lCarried : ∀ t l, s.pcs t = .unlock l → l ∈ s.logged
-  ret : ∀ l ∈ s.returned, l ∈ s.logged
+  lCarried : ∀ t l, s.pcs t = .unlock l → l ∈ s.logged ∨ l ∈ s.failed
+  ret : ∀ l ∈ s.returned, l ∈ s.logged ∨ l ∈ s.failed
   who : s.logged.map (·.1) = s.writers
 
 theorem ninv_init : NInv Na.Sys.init := by
@@ -156,11 +156,17 @@ theorem ninv_step {s s' : Na.Sys} {a : Na.Act} (hi : NInv s) (h : Na.step s a = 
           · simpa [Na.setPc, hat] using lBound a h
           · subst h; exact absurd hlt1 hat
       · intro i l' hil
-        show l' ∈ s.logged ++ [l]
+        show l' ∈ s.logged ++ [l] ∨ l' ∈ s.failed
         by_cases hit : i = t
-        · subst hit; simp only [Na.setPc, if_true] at hil; cases hil; simp
-        · simp only [Na.setPc, hit, if_false] at hil; exact List.mem_append_left _ (lCarried i l' hil)
-      · intro a ha; exact List.mem_append_left _ (ret a ha)
+        · subst hit; simp only [Na.setPc, if_true] at hil; cases hil; left; simp
+        · simp only [Na.setPc, hit, if_false] at hil
+          rcases lCarried i l' hil with h | h
+          · exact Or.inl (List.mem_append_left _ h)
+          · exact Or.inr h
+      · intro a ha
+        rcases ret a ha with h | h
+        · exact Or.inl (List.mem_append_left _ h)
+        · exact Or.inr h
       · show (s.logged ++ [l]).map (·.1) = s.writers ++ [t]
         rw [List.map_append, who]; simp [hlt1]
     · next l hpc =>
@@ -195,6 +201,65 @@ theorem ninv_step {s s' : Na.Sys} {a : Na.Act} (hi : NInv s) (h : Na.step s a = 
         rcases ha with h | h
         · exact ret a h
         · subst h; exact lCarried t a hpc
+
+  | writeFails t =>
+    have hmt := mx t
+    simp only [Na.step] at h
+    split at h <;> simp only [Option.some.injEq, reduceCtorEq] at h
+    next l hpc =>
+    subst h
+    have hown : s.mutex = some t := hmt.mp (by rw [hpc]; rfl)
+    obtain ⟨hl, hcnt⟩ := carried t l (by rw [hpc]; rfl)
+    refine ⟨?_, ?_, ?_, file, lOrd, ?_, ?_, ?_, who⟩
+    · intro i; have := mx i
+      by_cases hit : i = t
+      · subst hit; simp [nHolds, Na.setPc, hown]
+      · simpa [hit, Na.setPc] using this
+    · intro i l' hil
+      by_cases hit : i = t
+      · subst hit; simp only [Na.setPc, if_true, nLine] at hil ⊢; cases hil; exact ⟨hl, hcnt⟩
+      · simp only [Na.setPc, hit, if_false] at hil ⊢; exact carried i l' hil
+    · intro i l' hil hp
+      by_cases hit : i = t
+      · subst hit; simp [Na.setPc, nPre] at hp
+      · simp only [Na.setPc, hit, if_false] at hil hp ⊢; exact buf i l' hil hp
+    · intro a ha
+      obtain ⟨h1, h2⟩ := lBound a ha
+      refine ⟨h1, ?_⟩
+      by_cases hat : a.1 = t
+      · simp [Na.setPc, hat, nPre]
+      · simpa [Na.setPc, hat] using h2
+    · intro i l' hil
+      show l' ∈ s.logged ∨ l' ∈ s.failed ++ [l]
+      by_cases hit : i = t
+      · subst hit; simp only [Na.setPc, if_true] at hil; cases hil; right; simp
+      · simp only [Na.setPc, hit, if_false] at hil
+        rcases lCarried i l' hil with h | h
+        · exact Or.inl h
+        · exact Or.inr (List.mem_append_left _ h)
+    · intro a ha
+      rcases ret a ha with h | h
+      · exact Or.inl h
+      · exact Or.inr (List.mem_append_left _ h)
+
+/-- some thread can take a step whenever a call is in progress: nothing (in particular not a failed write) leaves
+the mutex locked with nobody to unlock it -/
+theorem na_progress {s : Na.Sys} (hi : NInv s) (hm : ∃ t, s.pcs t ≠ .idle) :
+    ∃ t, (Na.step s (.thread t)).isSome = true := by
+  cases hmx : s.mutex with
+  | some u =>
+    have := (hi.mx u).mpr hmx
+    cases hpc : s.pcs u <;> simp [hpc, nHolds] at this
+    · exact ⟨u, by simp [Na.step, hpc]⟩
+    · exact ⟨u, by simp [Na.step, hpc]⟩
+  | none =>
+    obtain ⟨t, ht⟩ := hm
+    have hno : nHolds (s.pcs t) = false := by
+      cases hh : nHolds (s.pcs t) with
+      | false => rfl
+      | true => have := (hi.mx t).mp hh; rw [hmx] at this; cases this
+    cases hpc : s.pcs t <;> simp [hpc, nHolds] at hno ht
+    exact ⟨t, by simp [Na.step, hpc, hmx]⟩
 
 theorem ninv_reachable {s : Na.Sys} (hr : Na.Reachable s) : NInv s := by
   induction hr with
